@@ -957,7 +957,8 @@ func (s *Server) backgroundSyncAOF(wg *sync.WaitGroup) {
 }
 
 func isReservedFieldName(field string) bool {
-	switch field {
+	// field names are stored trimmed (field.Make)
+	switch strings.TrimSpace(field) {
 	case "z", "lat", "lon":
 		return true
 	}
